@@ -144,6 +144,11 @@ func e2eGroups(c *kit.Case) {
 	for i := 0; i < 600 && !up; i++ {
 		select {
 		case p := <-startErr:
+			if msg := fmt.Sprint(p); strings.Contains(msg, "address already in use") || strings.Contains(msg, "bind:") || strings.Contains(msg, "listen tcp") {
+				// the port found free a moment ago was taken by another process: infrastructure, not a verdict
+				c.Inconclusive("rest.Server could not bind its port: " + msg)
+				return
+			}
 			c.Viol("C09/e2e-groups/legal-table-rejected-at-start", fmt.Sprintf("rest.Server.Start panicked for a legal route table: %v", p),
 				map[string]any{"registrations": regs, "panic": fmt.Sprint(p)})
 			c.Sig(true, "e2e-groups-rejected", c.Index)
